@@ -44,6 +44,11 @@ pub enum Target {
     FreshStab(u8),
     /// a node of another state: 0 = var, 1 = constant, 2 = map over the var
     Foreign(u8),
+    /// like `FreshMap`, and the fresh node is also put into the export table under this bind's index: a side
+    /// channel through which a node created on this bind's right-hand side reaches another bind (after seed C19-d)
+    FreshExport(u8),
+    /// the node bind `b` exported last (the constant while it has exported nothing)
+    Exported(u8),
 }
 
 #[derive(Clone, Debug, PartialEq)]
@@ -63,6 +68,9 @@ pub struct MProg {
     pub vars: [u8; 2],
     /// SubscribeStab actions enabled
     pub sub_handler: bool,
+    /// nodes observed from the start (exporting binds: a node handed out of a bind may only be used while that
+    /// bind is needed, DESIGN §8)
+    pub pre_observed: Vec<u8>,
 }
 
 #[derive(Clone, Debug, PartialEq)]
@@ -77,6 +85,9 @@ pub enum MAct {
 
 #[derive(Clone, Copy, Debug, PartialEq)]
 enum Ev {
+    /// which node an `Exported` target yields depends on the order in which two bind closures run in this very
+    /// stabilise: any outcome is accepted
+    Ambiguous,
     Cycle,
     Cross,
     NestedFn,
@@ -85,6 +96,14 @@ enum Ev {
 }
 
 type Slots = Rc<RefCell<Vec<Option<Incr<u8>>>>>;
+type Exports = Rc<RefCell<Vec<Option<(u32, Incr<u8>)>>>>;
+
+thread_local! {
+    /// runs of the closures of exporting / importing binds: (bind index, left-hand value, generation exported or
+    /// fetched). The side channel makes what an importing bind holds depend on *when* its closure ran, which no
+    /// from-scratch evaluation can know; the reference adopts these facts after every completed stabilise.
+    static BIND_LOG: RefCell<Vec<(usize, u8, Option<u32>)>> = RefCell::new(vec![]);
+}
 
 struct Real {
     state: Option<IncrState>,
@@ -95,6 +114,8 @@ struct Real {
     foreign: Vec<Incr<u8>>,
     nodes: Vec<Incr<u8>>,
     slots: Slots,
+    /// export table (see `Target::FreshExport`), indexed by the exporting bind's node index: (generation, node)
+    exports: Exports,
     obs: Vec<Option<Observer<u8>>>,
 }
 
@@ -150,6 +171,7 @@ impl Real {
             (None, None, vec![])
         };
         let slots: Slots = Rc::new(RefCell::new(vec![None; prog.nodes.len()]));
+        let exports: Exports = Rc::new(RefCell::new(vec![None; prog.nodes.len()]));
         let mut nodes: Vec<Incr<u8>> = vec![];
         let src = |s: &Src, nodes: &Vec<Incr<u8>>| -> Incr<u8> {
             match s {
@@ -192,13 +214,19 @@ impl Real {
                 }
                 MNode::Bind { lhs, on } => {
                     let slots = slots.clone();
+                    let exports = exports.clone();
+                    let my_index = nodes.len();
                     let konst = konst.clone();
                     let foreign = foreign.clone();
                     let on = on.clone();
                     let ws = state.weak();
+                    let logs_runs = matches!(on, Target::FreshExport(_) | Target::Exported(_));
                     src(lhs, &nodes).bind(move |x: &u8| {
                         touch();
                         if *x == 0 {
+                            if logs_runs {
+                                BIND_LOG.with(|l| l.borrow_mut().push((my_index, 0, None)));
+                            }
                             return konst.clone();
                         }
                         let slot = |j: u8| slots.borrow()[j as usize].clone().expect("slot filled before the first stabilise");
@@ -217,6 +245,21 @@ impl Real {
                                 })
                             }
                             Target::Foreign(k) => foreign[*k as usize].clone(),
+                            Target::FreshExport(j) => {
+                                let n = slot(*j).map(|x| {
+                                    touch();
+                                    x.wrapping_mul(2)
+                                });
+                                let gen = exports.borrow()[my_index].as_ref().map_or(0, |(g, _)| *g) + 1;
+                                exports.borrow_mut()[my_index] = Some((gen, n.clone()));
+                                BIND_LOG.with(|l| l.borrow_mut().push((my_index, *x, Some(gen))));
+                                n
+                            }
+                            Target::Exported(b) => {
+                                let got = exports.borrow()[*b as usize].clone();
+                                BIND_LOG.with(|l| l.borrow_mut().push((my_index, *x, got.as_ref().map(|(g, _)| *g))));
+                                got.map(|(_, n)| n).unwrap_or_else(|| konst.clone())
+                            }
                         }
                     })
                 }
@@ -234,17 +277,20 @@ impl Real {
             foreign,
             nodes,
             slots,
+            exports,
             obs: (0..n).map(|_| None).collect(),
         }
     }
 
     fn drop_in_order(self, order: u8) {
-        let Real { state, other, vars, foreign_var, konst, foreign, nodes, slots, obs } = self;
+        let Real { state, other, vars, foreign_var, konst, foreign, nodes, slots, exports, obs } = self;
         let states = (state, other);
         let vars = (vars, foreign_var);
         let drop_nodes = move || {
             slots.borrow_mut().clear();
             drop(slots);
+            exports.borrow_mut().clear();
+            drop(exports);
             drop(nodes);
             drop(konst);
             drop(foreign);
@@ -288,6 +334,9 @@ pub struct MisuseWorld {
     prev_needed: Vec<bool>,
     /// variable values at the last completed stabilise
     old_vars: [u8; 2],
+    /// per exporting / importing bind: its closure's last run as logged (left-hand value, generation exported /
+    /// fetched); None = has not run yet
+    bind_run: Vec<Option<(u8, Option<u32>)>>,
     poisoned: bool,
     dead: bool,
     obs_hash: u64,
@@ -351,6 +400,47 @@ impl MisuseWorld {
                         Err(Ev::NestedFn)
                     }
                     Target::Foreign(_) => Err(Ev::Cross),
+                    Target::FreshExport(j) => Ok(self.val(vars, *j, stack, seen)?.wrapping_mul(2)),
+                    Target::Exported(b) => {
+                        let MNode::Bind { lhs: blhs, on: Target::FreshExport(j) } = &self.prog.nodes[*b as usize] else { return Ok(1) };
+                        let exp = self.bind_run[*b as usize];
+                        let will_rerun = self.bind_run[i as usize].map_or(true, |(lv, _)| lv != l);
+                        if !will_rerun {
+                            // the closure keeps what it fetched at its last run
+                            let Some((_, Some(g))) = self.bind_run[i as usize] else { return Ok(1) };
+                            let Some((blv, Some(bg))) = exp else { return Ok(1) };
+                            if bg != g {
+                                return Ok(1); // an export that b has replaced (and invalidated) since
+                            }
+                            // scope edge: the exported node lives above b's left-hand side
+                            let bl = self.src_val(vars, blhs, stack, seen)?;
+                            if bl != blv {
+                                return Ok(1); // b re-runs in this stabilise and invalidates it
+                            }
+                            return Ok(self.val(vars, *j, stack, seen)?.wrapping_mul(2));
+                        }
+                        // the closure runs in this stabilise and fetches what the table holds at that moment
+                        let Some((blv, bgen)) = exp else { return Err(Ev::Ambiguous) };
+                        match self.src_val(vars, blhs, &mut stack.clone(), &mut seen.clone()) {
+                            Err(Ev::Cycle) => {
+                                // b's input depends on this bind: b cannot run before this closure has returned
+                                if blv != 0 && bgen.is_some() {
+                                    Err(Ev::Cycle) // it returns b's current export, which lives above b's input: a cycle
+                                } else {
+                                    Ok(1)
+                                }
+                            }
+                            Err(e) => Err(e),
+                            Ok(bl) if bl != blv => Err(Ev::Ambiguous), // b re-runs too: the order decides
+                            Ok(_) => {
+                                if blv == 0 || bgen.is_none() {
+                                    return Ok(1);
+                                }
+                                self.src_val(vars, blhs, stack, seen)?;
+                                Ok(self.val(vars, *j, stack, seen)?.wrapping_mul(2))
+                            }
+                        }
+                    }
                 }
             }
         })();
@@ -395,7 +485,7 @@ impl MisuseWorld {
                     push(lhs);
                     if nonzero_possible(lhs) {
                         match on {
-                            Target::Node(j) | Target::FreshMap(j) => adj[i].push(*j as usize),
+                            Target::Node(j) | Target::FreshMap(j) | Target::FreshExport(j) | Target::Exported(j) => adj[i].push(*j as usize),
                             Target::FreshStab(j) => {
                                 adj[i].push(*j as usize);
                                 bad[i] = true;
@@ -458,16 +548,29 @@ impl World for MisuseWorld {
     type Action = MAct;
 
     fn new(prog: &MProg, _cfg: &Cfg) -> Self {
-        let real = catch(|| Real::build(prog)).ok();
+        let pre = prog.pre_observed.clone();
+        let real = catch(|| {
+            let mut r = Real::build(prog);
+            for i in pre.iter() {
+                r.obs[*i as usize] = Some(r.nodes[*i as usize].observe());
+            }
+            r
+        })
+        .ok();
         let dead = real.is_none();
+        let mut observed = vec![false; prog.nodes.len()];
+        for i in prog.pre_observed.iter() {
+            observed[*i as usize] = true;
+        }
         MisuseWorld {
             prog: prog.clone(),
             real,
             vars: prog.vars,
-            observed: vec![false; prog.nodes.len()],
+            observed,
             subs: vec![],
             prev_needed: vec![false; prog.nodes.len()],
             old_vars: prog.vars,
+            bind_run: vec![None; prog.nodes.len()],
             poisoned: false,
             dead,
             obs_hash: 0,
@@ -586,6 +689,7 @@ impl World for MisuseWorld {
                 let may = exp.is_none() && !self.prev_needed.iter().all(|x| !*x) && self.may_misuse();
                 NESTED.with(|n| n.set(0));
                 COMPUTED_IN_NESTED.with(|c| c.set(false));
+                BIND_LOG.with(|l| l.borrow_mut().clear());
                 let r = {
                     let real = self.real.as_ref().unwrap();
                     catch(|| real.state.as_ref().unwrap().stabilise())
@@ -601,8 +705,19 @@ impl World for MisuseWorld {
                         ));
                     }
                 }
+                // `Ambiguous`: which node an Exported target yields depends on the order of two closures: nothing is demanded
+                let ambiguous = exp == Some(Ev::Ambiguous);
+                let exp = if ambiguous { None } else { exp };
+                let may = may || ambiguous;
+                if ambiguous {
+                    self.note("unjudged_round_export_order_dependent");
+                }
                 match (exp, r) {
                     (None, Ok(())) => {
+                        // adopt what the closures of exporting / importing binds did in this stabilise
+                        for (b, x, g) in BIND_LOG.with(|l| std::mem::take(&mut *l.borrow_mut())) {
+                            self.bind_run[b] = Some((x, g));
+                        }
                         let real = self.real.as_ref().unwrap();
                         let reads: Vec<String> = real.obs.iter().map(|o| o.as_ref().map(|o| format!("{:?}", o.try_get_value().ok())).unwrap_or_default()).collect();
                         self.explain = format!("no misuse reachable, stabilise ok, reads {reads:?}");
@@ -638,6 +753,7 @@ impl World for MisuseWorld {
                                 Ev::NestedFn => ("C19.nested_stabilise", "a node function called stabilise"),
                                 Ev::NestedUpd => ("C19.nested_stabilise", "an on_update handler called stabilise"),
                                 Ev::NestedSub => ("C19.nested_stabilise", "a subscription handler called stabilise"),
+                                Ev::Ambiguous => unreachable!(),
                             };
                             vs.push(v(rule, format!("no_panic:{ev:?}"), format!("{what} during this stabilise, which returned normally instead of panicking")));
                         }
@@ -652,6 +768,7 @@ impl World for MisuseWorld {
                             Ev::NestedFn => self.note("nested_fn_panics"),
                             Ev::NestedUpd => self.note("nested_on_update_panics"),
                             Ev::NestedSub => self.note("nested_subscription_panics"),
+                            Ev::Ambiguous => unreachable!(),
                         }
                         if ev == Ev::Cycle && !p.message.to_ascii_lowercase().contains("cycl") && check {
                             vs.push(v(
@@ -687,7 +804,7 @@ impl World for MisuseWorld {
             s.push_str("\n=== other\n");
             s.push_str(&canonicalise_dump(&o.verif_dump()));
         }
-        s.push_str(&format!("\n=== harness vars={:?} observed={:?} subs={:?} prev_needed={:?} old_vars={:?}", self.vars, self.observed, self.subs, self.prev_needed, self.old_vars));
+        s.push_str(&format!("\n=== harness vars={:?} observed={:?} subs={:?} prev_needed={:?} old_vars={:?} bind_run={:?}", self.vars, self.observed, self.subs, self.prev_needed, self.old_vars, self.bind_run));
         Some(s)
     }
 
@@ -704,6 +821,9 @@ impl World for MisuseWorld {
         if let Some(r) = self.real.as_ref() {
             // break the harness-made reference cycle closure -> slot table -> node -> closure
             if let Ok(mut s) = r.slots.try_borrow_mut() {
+                s.clear();
+            }
+            if let Ok(mut s) = r.exports.try_borrow_mut() {
                 s.clear();
             }
         }
@@ -731,12 +851,14 @@ impl World for MisuseWorld {
                         Target::FreshMap(j) => json!({"fresh_map": j}),
                         Target::FreshStab(j) => json!({"fresh_stab": j}),
                         Target::Foreign(k) => json!({"foreign": k}),
+                        Target::FreshExport(j) => json!({"fresh_export": j}),
+                        Target::Exported(b) => json!({"exported": b}),
                     };
                     json!({"k": "bind", "lhs": src(lhs), "on": t})
                 }
             })
             .collect();
-        json!({"world": "misuse", "nodes": nodes, "vars": [p.vars[0], p.vars[1]], "sub_handler": p.sub_handler})
+        json!({"world": "misuse", "nodes": nodes, "vars": [p.vars[0], p.vars[1]], "sub_handler": p.sub_handler, "pre_observed": p.pre_observed})
     }
     fn prog_from_json(j: &Json) -> Option<MProg> {
         let src = |s: &Json| -> Option<Src> {
@@ -765,6 +887,10 @@ impl World for MisuseWorld {
                         Target::FreshMap(x)
                     } else if let Some(x) = g("fresh_stab") {
                         Target::FreshStab(x)
+                    } else if let Some(x) = g("fresh_export") {
+                        Target::FreshExport(x)
+                    } else if let Some(x) = g("exported") {
+                        Target::Exported(x)
                     } else {
                         Target::Foreign(g("foreign")?)
                     };
@@ -778,6 +904,7 @@ impl World for MisuseWorld {
             nodes,
             vars: [vs.first()?.as_u64()? as u8, vs.get(1)?.as_u64()? as u8],
             sub_handler: j.get("sub_handler")?.as_bool()?,
+            pre_observed: j.get("pre_observed").and_then(|v| v.as_array()).map(|a| a.iter().filter_map(|x| x.as_u64().map(|x| x as u8)).collect()).unwrap_or_default(),
         })
     }
     fn action_json(a: &MAct) -> Json {
@@ -846,7 +973,8 @@ fn edges(nodes: &[MNode], i: usize) -> Vec<(usize, bool)> {
             s(lhs);
             match on {
                 Target::Node(j) => out.push((*j as usize, false)),
-                Target::FreshMap(j) | Target::FreshStab(j) => out.push((*j as usize, true)),
+                Target::FreshMap(j) | Target::FreshStab(j) | Target::FreshExport(j) => out.push((*j as usize, true)),
+                Target::Exported(b) => out.push((*b as usize, true)),
                 Target::Foreign(_) => {}
             }
         }
@@ -987,6 +1115,26 @@ pub fn family(name: &str, tier: Tier) -> Vec<MProg> {
         None => (name, None),
     };
     match name {
+        // cycles that close over a *scope* edge: a node created on one bind's right-hand side reaches another bind
+        // through a side channel (hand-written; the exporting bind is observed from the start). Added after seed C19-d.
+        "misuse/scope-cycle" => {
+            let b = |lhs: Src, on: Target| MNode::Bind { lhs, on };
+            let progs: Vec<(Vec<MNode>, Vec<u8>)> = vec![
+                // bind2's input depends on bind1 through a map; bind1 switches to the node bind2 exported
+                (vec![b(Src::Var(0), Target::Exported(2)), MNode::Map(Src::Node(0)), b(Src::Node(1), Target::FreshExport(3)), MNode::Map(Src::Var(1))], vec![2]),
+                // bind2's input is bind1 itself
+                (vec![b(Src::Var(0), Target::Exported(1)), b(Src::Node(0), Target::FreshExport(2)), MNode::Map(Src::Var(1))], vec![1]),
+                // control: the exporter does not depend on the importing bind (no cycle, no panic)
+                (vec![b(Src::Var(0), Target::Exported(1)), b(Src::Var(1), Target::FreshExport(2)), MNode::Map(Src::Var(1))], vec![1]),
+                // a consumer above the importing bind, exporter fed by a map2 over the importer and a variable
+                (vec![b(Src::Var(0), Target::Exported(2)), MNode::Map2(Src::Node(0), Src::Var(1)), b(Src::Node(1), Target::FreshExport(3)), MNode::Map(Src::Var(1))], vec![2]),
+            ];
+            for (nodes, pre) in progs {
+                for vars in [[0u8, 1u8], [0, 0], [1, 1]] {
+                    out.push(MProg { nodes: nodes.clone(), vars, sub_handler: false, pre_observed: pre.clone() });
+                }
+            }
+        }
         // cycle-small: <= 3 declared nodes; cycle-4: exactly 4 (quick: only programs whose binds
         // start switched on, so that the cycle closes in the first stabilise)
         "misuse/cycle-small" | "misuse/cycle-4" | "misuse/cycle" => {
@@ -1013,9 +1161,9 @@ pub fn family(name: &str, tier: Tier) -> Vec<MProg> {
                     }
                     let on: [u8; 2] = if binds == 2 { [1, 1] } else { [1, 0] };
                     if !(n == 4 && !thorough) {
-                        out.push(MProg { nodes: nodes.clone(), vars: [0, 0], sub_handler: false });
+                        out.push(MProg { nodes: nodes.clone(), vars: [0, 0], sub_handler: false, pre_observed: vec![] });
                     }
-                    out.push(MProg { nodes: nodes.clone(), vars: on, sub_handler: false });
+                    out.push(MProg { nodes: nodes.clone(), vars: on, sub_handler: false, pre_observed: vec![] });
                 }
             }
         }
@@ -1029,7 +1177,7 @@ pub fn family(name: &str, tier: Tier) -> Vec<MProg> {
                         continue;
                     }
                     for s in [[0u8, 0u8], [1, 1]] {
-                        out.push(MProg { nodes: nodes.clone(), vars: s, sub_handler: false });
+                        out.push(MProg { nodes: nodes.clone(), vars: s, sub_handler: false, pre_observed: vec![] });
                     }
                 }
             }
@@ -1045,7 +1193,7 @@ pub fn family(name: &str, tier: Tier) -> Vec<MProg> {
                         continue;
                     }
                     for s in [[0u8, 0u8], [1, 1]] {
-                        out.push(MProg { nodes: nodes.clone(), vars: s, sub_handler: false });
+                        out.push(MProg { nodes: nodes.clone(), vars: s, sub_handler: false, pre_observed: vec![] });
                     }
                 }
             }
@@ -1058,7 +1206,7 @@ pub fn family(name: &str, tier: Tier) -> Vec<MProg> {
                         continue;
                     }
                     for s in [[0u8, 0u8], [1, 1]] {
-                        out.push(MProg { nodes: nodes.clone(), vars: s, sub_handler: true });
+                        out.push(MProg { nodes: nodes.clone(), vars: s, sub_handler: true, pre_observed: vec![] });
                     }
                 }
             }
